@@ -185,7 +185,7 @@ func Build(cfg Config) *Perso {
 				if bits == 0 {
 					bits = 2048
 				}
-				key = refpki.LoadKey(refpki.RSA(bits, false, 2+a.RSAIndex%2)).RSA
+				key = refpki.LoadKey(refpki.RSA(bits, false, refpki.RSAKeysPerSize[bits]-1)).RSA
 			}
 			aa.RSA = key
 			if aa.Trailer == "" {
@@ -194,7 +194,7 @@ func Build(cfg Config) *Perso {
 			spki = refpki.DER(refpki.Seq(refpki.Seq(refpki.OID([]int{1, 2, 840, 113549, 1, 1, 1}), refpki.Null()),
 				refpki.BitString(refpki.DER(refpki.Seq(refpki.Int(key.N), refpki.Int64(int64(key.E)))))))
 			if a.Clone {
-				aa.RSA = refpki.LoadKey(refpki.RSA(key.N.BitLen(), false, 4)).RSA
+				aa.RSA = refpki.LoadKey(refpki.RSA(key.N.BitLen(), false, refpki.RSAKeysPerSize[key.N.BitLen()]-2)).RSA
 			}
 		} else {
 			curve := refpki.CurveByName(a.Curve)
